@@ -137,7 +137,7 @@ CLAIMED = {
             "character with the model (token renderings, repr with addresses substituted), with and without rfunc/sort; the oracle recomputes every line from neighbors().",
             "sorted() stability of CPython is trusted.", "DESIGN.md 3/C16"),
     "C17": ("Lean 4 proof: state machine of the semi-singleton maps: live key returns same instance without __init__, new key new instance of the called class, reports exact, isolation between classes sharing a metaclass; the key relation of the pool's argument tuples regenerated from the real metaclasses on every run and re-proved equal to the model's key function by kernel evaluation; exhaustive depth-2/3 + random correspondence",
-            "Regenerated on every run (242 rows: every pair of argument tuples x both hash functions, on fresh classes): C17_key_impl_eq_model (same object returned <=> same model key), C17_key_table_complete, by decide +kernel. Theorems C17_wf_all_histories, C17_live_key_returns_same_no_init, C17_new_key_new_instance, C17_returns_called_class, C17_reports_exact, C17_drop, C17_isolation, C17_clear for an arbitrary "
+            "Regenerated on every run (338 rows: every pair of argument tuples x both hash functions, on fresh classes): C17_key_impl_eq_model (same object returned <=> same model key), C17_key_table_complete, by decide +kernel. Theorems C17_wf_all_histories, C17_live_key_returns_same_no_init, C17_new_key_new_instance, C17_returns_called_class, C17_reports_exact, C17_drop, C17_isolation, C17_clear for an arbitrary "
             "configuration (which classes share a metaclass object, arbitrary key functions). Correspondence: fresh classes per history (own metaclass, shared metaclass object, subclasses, custom hash "
             "function), argument pool with equal hashes (-1/-2), 1/1.0/True, keyword permutations; the instance maps are read back after every call; the oracle keeps the statement's own (class, key) book.",
             "Keys are compared with ==; unhashable arguments (TypeError) are outside the model.", "DESIGN.md 3/C17"),
